@@ -12,7 +12,7 @@ import tempfile
 
 import numpy as np
 
-from .. import carrier, cover, gen, itpspec, ref
+from .. import carrier, core, cover, gen, itpspec, ref
 
 LEVEL = 'exploration'
 JOBS = {'quick': 2, 'thorough': 16}
@@ -20,7 +20,7 @@ REQUIRED_MONITORS = ('topology_vs_truth', 'connectivity_vs_unionfind', 'copy_iso
 REQUIRED_CLASSES = ('include-target-exists', 'colliding-number-strings', 'copy:after-modification', 'numbering:gaps', 'numbering:offset', 'bonds-three-way', 'decorated', 'kind:forest', 'kind:cyclic', 'kind:disconnected-cyclic', 'bonds:exactly-n-1-disconnected', 'conditional-block-with-else',
                     'kind:chain', 'long-chain', 'multi-residue', 'connected:yes', 'connected:no',
                     'repeated-section', 'are_connected:Molecule.atoms', 'shipped', 'carrier:handle', 'carrier:handle-relative-then-chdir',
-                    'carrier:handle-newline-untranslated', 'carrier:relative-path')
+                    'carrier:handle-newline-untranslated', 'carrier:relative-path', 'settings:warnings-as-errors')
 RULE = ('generated topology files: graph kind x size (1..3000) x atom numbering (plain/offset/gaps) x bond split over '
         'bonds/constraints/pairs x decorations x repeated sections; plus the shipped topologies (self-consistency). '
         'Non-trivial: at least one bond. distinct = distinct (kind, size bucket, numbering, split, decorated, repeated, multi-residue)')
@@ -83,9 +83,12 @@ def check_against_truth(ctx, path, truth, label):
         # the same bare name waits in the directory the process moves to after opening a relative name
         k1, k2 = carrier.next_kind(ctx), carrier.next_kind(ctx)
         w['carriers'] = [k1, k2]
-        with carrier.carried(path, k1, decoy=_decoy()) as f1:
+        # ... by a caller that may run with warnings turned into errors (the unchanged reader is silent)
+        caller = core.next_settings(ctx, ('default', 'warnings-as-errors'))
+        w['caller_settings'] = caller
+        with carrier.carried(path, k1, decoy=_decoy()) as f1, core.settings(caller):
             name, atoms, bonds = read_topology(f1)
-        with carrier.carried(path, k2, decoy=_decoy()) as f2:
+        with carrier.carried(path, k2, decoy=_decoy()) as f2, core.settings(caller):
             mt = MoleculeTop(f2)
     except Exception as exc:  # noqa
         ctx.violation(f'reader-raises:{type(exc).__name__}:{rep}', f'{type(exc).__name__}: {str(exc)[:200]}', witness=w)
